@@ -1357,7 +1357,7 @@ fn families() -> Vec<Scenario> {
     //     delivered too - handed to the running retrier, or picked up by a new one - and the tower shown reachable with nothing pending
     for _ in 0..3 {
         v.push(fam(33, 1, (6, 3, 1), vec![(K_REG, 0, R_GOOD), (K_UP, 0, 0), (K_REV, 0, 0), (K_SLEEP, 1800, 0), (K_REV, 1, 0), (K_MODE, 0, A_SLOW), (K_UP, 0, 1), (K_WAITREQ, 0, 1),
-                                          (K_REV, 2, 0), (K_SETTLE, 0, 0), (K_SLEEP, 18000, 0), (K_SETTLE, 0, 0)]));
+                                          (K_REV, 2, 0), (K_SETTLE, 0, 0), (K_MODE, 0, A_ACCEPT), (K_SLEEP, 18000, 0), (K_SETTLE, 0, 0)]));
     }
     // 28: the plugin is KILLED at some point of a bulk delivery and started again: what had a record before has one after
     for ms in [1250u64, 1400, 1550, 1700, 1850, 2000, 2150, 2300] {
